@@ -132,7 +132,15 @@ def facts_dir(root="/repo", config="default", extra_flags=()):
     meta_p = os.path.join(d, "META.json")
     if os.path.exists(meta_p):
         with open(meta_p) as fh:
-            return d, json.load(fh)
+            meta = json.load(fh)
+        if meta.get("root") != root:
+            # same content analysed earlier under another root (scratch copy): re-anchor the paths
+            old = meta["root"]
+            meta = dict(meta)
+            meta["units"] = [u.replace(old, root, 1) if u.startswith(old) else u for u in meta["units"]]
+            meta["flags"] = [f.replace(old, root) for f in meta["flags"]]
+            meta["root"] = root
+        return d, meta
     t0 = time.time()
     tmpd = d + ".tmp%d" % os.getpid()
     shutil.rmtree(tmpd, ignore_errors=True)
